@@ -214,7 +214,7 @@ Section Phases.
     unfold_step. replace (n <=? p + 1)%Z with false by lia. cbv beta iota. rewrite Hc. reflexivity.
   Qed.
 
-  Lemma opaque_loop : forall l p buf a br pw u tl,
+  Lemma opaque_path_loop : forall l p buf a br pw u tl,
     c_singlePct c = false ->
     (-1 <= p)%Z -> rest (p + 1) = l ++ tl -> forallb opq_char l = true ->
     u_path u = [buf] -> u_opaque u = true ->
@@ -243,7 +243,7 @@ Section Phases.
     finishes (mk OpaquePath p false [] a br pw u) (with_f (with_q (set_path u [s0] true) oq) of).
   Proof using Hrep Hfail.
     intros Hsp H35 Hp Hr Hs0 Hpath Hopq Hq Hf.
-    eapply reaches_finishes; [apply (opaque_loop s0 p [] a br pw u _ Hsp Hp Hr Hs0 Hpath Hopq)|].
+    eapply reaches_finishes; [apply (opaque_path_loop s0 p [] a br pw u _ Hsp Hp Hr Hs0 Hpath Hopq)|].
     cbn [app]. pose proof (rest_app (p + 1)%Z _ _ ltac:(lia) Hr) as Hr'.
     replace (p + 1 + len s0)%Z with (p + len s0 + 1)%Z in Hr' by ring.
     pose proof (len_nonneg s0) as Hl.
